@@ -245,9 +245,18 @@ def exec_decompiled(src, result_name="result"):
     log = Log()
     g = {"__builtins__": BuiltinsStub(log), "UNPICKLER": UnpicklerStub(log)}
     code = compile(src, "<decompiled>", "exec")
-    exec(code, g)
+    try:
+        exec(code, g)
+    except BaseException as e:
+        try:
+            e.vp_log, e.vp_completed = log, False
+        except Exception:
+            pass
+        raise
     if result_name not in g:
-        raise NameError(f"decompiled program does not bind {result_name}")
+        e = NameError(f"decompiled program does not bind {result_name}")
+        e.vp_log, e.vp_completed = log, True        # the program ran to its end: its events are all there
+        raise e
     return log, g[result_name], g
 
 
